@@ -642,7 +642,11 @@ func (x *runner) call(ci int) bool {
 				what = fmt.Sprintf("%s stored height %d hash %X (canonical: %v) below the first trusted height %d, but the header is not linked by LastBlockID hashes to any trusted header through the headers providers returned during the call",
 					cd.Op, h, L.Hash(), canon, first)
 			}
-			if !backward && paddedCommit(L) {
+			if !backward && nilPadded(L) {
+				// the stored block's commit carries precommits for nil; only signatures for the block count
+				key = "stored-header-backed-by-nil-precommits"
+				what += "; its commit carries precommits FOR NIL, and the signatures for the block alone do not give it more than two thirds of its own set or the trust level of a trusted set"
+			} else if !backward && paddedCommit(L) {
 				// the stored block's commit names the same validator in several for-the-block slots
 				key = "stored-header-below-trust-level-padded-commit"
 				what += "; its commit carries the same validator address or the same signature in several for-the-block slots, and counting every distinct validator once the reference tally stays below what a step needs"
@@ -794,12 +798,23 @@ func (x *runner) call(ci int) bool {
 		k.Count("oracleDev.evidence_blocks_evaluated", 1)
 		if !x.o.reachable(trusted, cands, e.lb, cd.now) {
 			key := "evidence-names-unverifiable-conflicting-block"
-			if paddedCommit(e.lb) {
+			if nilPadded(e.lb) {
+				key = "attack-reported-on-nil-padded-header"
+			} else if paddedCommit(e.lb) {
 				key = "attack-reported-on-padded-commit-header"
 			}
 			k.Violation(key, fmt.Sprintf("%s: evidence handed to p%d names height %d hash %X as the conflicting block, but no chain of reference steps leads to that block from the headers trusted before the call through the light blocks providers returned during the call (the call returned %q)",
 				cd.Op, e.Prov, e.Height, []byte(e.Hash), fmt.Sprint(err)), x.witness(ci, map[string]interface{}{"error_returned": fmt.Sprint(err)}, s0))
 			break
+		}
+	}
+	if d.Stream == "recipe-nil" {
+		k.Count(fmt.Sprintf("recipe_nil.delivery%d.%s", d.Case%4, class), 1)
+		k.Count("recipe_nil.stored_headers", int64(len(fresh)))
+		for _, e := range win {
+			if e.Kind == "reply" && e.lb != nil && nilPadded(e.lb) {
+				k.Count("recipe_nil.nil_padded_blocks_served", 1)
+			}
 		}
 	}
 	if d.Stream == "recipe-pad" {
@@ -969,6 +984,19 @@ func paddedCommit(lb *types.LightBlock) bool {
 			return true
 		}
 		addr[string(s.ValidatorAddress)], sig[string(s.Signature)] = true, true
+	}
+	return false
+}
+
+// nilPadded: does the block's commit carry at least one precommit flagged "for nil"?
+func nilPadded(lb *types.LightBlock) bool {
+	if lb == nil || lb.SignedHeader == nil || lb.Commit == nil {
+		return false
+	}
+	for _, s := range lb.Commit.Signatures {
+		if s.BlockIDFlag == types.BlockIDFlagNil {
+			return true
+		}
 	}
 	return false
 }
